@@ -41,7 +41,7 @@ CLASSES = [
     "dot", "general", "concat", "mh_dot", "mh_general", "mh_concat",
     "single_kept", "mh_mask_last_eq_heads", "no_mask", "neg_dim", "broadcast_query",
     "mh_bias_flags", "saturated", "mh_single_kept", "rank2", "mh_broadcast_query", "long_seq",
-    "mask_wider_than_scores",
+    "mask_wider_than_scores", "mh_nested",
 ]
 _CLS_NAMES = {"dot": "DotProductSoftAttention", "general": "GeneralizedDotProductSoftAttention",
               "concat": "ConcatSoftAttention", "mh": "MultiHeadedAttention"}
@@ -249,6 +249,17 @@ def generate(rng, tier, i):
             "out_size": rng.choice([None, None, rng.randint(1, mx)]),
             "d_v": rng.choice([None, rng.randint(1, 3)]), "flags": flags, "dim": p,
         }
+        if cls == "mh_nested":
+            # a composite as the wrapped "single head": a multi-headed attention (around one of the three flavours)
+            # used as the head of another one
+            dv = rng.randint(1, 3)
+            spec["d_v"] = dv
+            inner = _single_spec(rng, rng.choice(["concat", "concat", "dot", "general"]), 3, p)
+            spec["inner"] = {
+                "flavour": "mh", "query_size": rng.randint(1, 3), "key_size": rng.randint(1, 3), "value_size": dv,
+                "num_heads": rng.randint(1, 3), "inner": inner, "out_size": None,
+                "d_v": rng.choice([None, 1, 2]), "flags": [rng.random() < 0.6 for _ in range(4)], "dim": p,
+            }
         vsize = spec["value_size"]
         if rng.random() < 0.25:
             # self-attention style call: the very same tensor object is handed over as key AND value
@@ -615,6 +626,8 @@ def execute(case, mon):
             # the wrapped call the module really made: range clause on what it was given
             mon.check(len(inner_calls) >= 1, "inner-observed", calls=len(inner_calls))
             for args, kwargs, o in inner_calls:
+                if inner_fl == "mh":
+                    break  # a wrapped composite projects its values: the range clause does not apply to it
                 names = ["query", "key", "value", "mask"]
                 a = dict(zip(names, args))
                 a.update(kwargs)
